@@ -44,6 +44,9 @@ def r1(ctx: Ctx) -> None:
     inner = [lp for lp in loops if any(a is outer[0] for a in ancestors(lp))] if len(outer) == 1 else []
     if len(outer) != 1 or len(inner) != 1:
         ctx.unknown('C10.R1', f, f'{len(outer)} outer / {len(inner)} inner loops in classify_merchants (a merchant x view double loop expected)')
+    if not any(isinstance(n, ast.Call) and call_name(n) == 'evaluate_section_filter' for n in ast.walk(inner[0])):
+        # the filter is not evaluated inside the (merchant x view) double loop any more (moved into a helper that returns the accepting views, say)
+        ctx.unknown('C10.R1', f, 'evaluate_section_filter is not called inside the merchant x view double loop')
     mvar = outer[0].target.id if isinstance(outer[0].target, ast.Name) else None
     svar = inner[0].target.id if isinstance(inner[0].target, ast.Name) else None
     ctx.check(src(outer[0].iter) == f.params[1] and src(inner[0].iter) == f'{f.params[0]}.sections', 'C10.R1', f, 'loops',
@@ -278,7 +281,7 @@ def r4(ctx: Ctx) -> None:
     # guards
     rets0 = [s for s in fl.cfg.stmts() if isinstance(s, ast.Return) and isinstance(s.value, ast.Constant) and s.value.value in (0, 0.0)]
     guards = {src(parent(s).test).replace(' ', '') for s in rets0 if isinstance(parent(s), ast.If)}
-    ctx.check('len(monthly_totals)<2' in guards, 'C10.R4', f, 'guard:two-months', '0 below two active months', f'zero guards are {sorted(guards)}')
+    ctx.check('len(monthly_totals)<2' in guards or 'len(values)<2' in guards, 'C10.R4', f, 'guard:two-months', '0 below two active months', f'zero guards are {sorted(guards)}')
     ctx.check('avg==0' in guards, 'C10.R4', f, 'guard:zero-mean', '0 when the mean is 0', f'zero guards are {sorted(guards)}')
     var = text.get('variance')
     avg = text.get('avg')
@@ -362,6 +365,17 @@ def r7(ctx: Ctx) -> None:
             for c in ast.walk(n.body[0]):
                 if isinstance(c, ast.Call) and call_name(c) == 'strftime':
                     table[k] = c.args[0].value
+    # the same mapping kept in a constant table: fmt = TABLE.get(field) / TABLE[field] … strftime(fmt)
+    from ._tables import table_of
+    gfl = get_flow(proj, gb)
+    for c in gfl.calls('strftime'):
+        if c.args and isinstance(c.args[0], ast.Name):
+            for d in gfl.cfg.defs_reaching(gfl.stmt_of(c), c.args[0].id):
+                if d != 'param' and isinstance(gfl.cfg.stmt[d], ast.Assign):
+                    tb = table_of(gfl.cfg.stmt[d].value, gb.module, gb.cls)
+                    if tb is not None and src(tb[1]) == 'field':
+                        for k_, v_ in tb[0].items():
+                            table.setdefault(k_, v_)
     want = {'month': '%Y-%m', 'year': '%Y', 'day': '%Y-%m-%d'}
     for k, v in want.items():
         ctx.check(table.get(k) == v, 'C10.R7', gb, f'key:by-{k}', f'by("{k}") groups by {v}', f'by("{k}") groups by {table.get(k)!r}')
